@@ -481,6 +481,181 @@ def check_cursor_scratch(P, ctx):
     ctx.floor(rule, 8)
 
 
+def range_spec(start, stop, step):
+    """the elements a Range denotes, in iteration order (positive step: start, start+step, ... below stop; negative step:
+    stop-1, stop-1+step, ... not below start — the reading the forward cursor functions implement)"""
+    out = []
+    if step > 0:
+        v = start
+        while v < stop and len(out) < 64:
+            out.append(v)
+            v += step
+    elif step < 0:
+        v = stop - 1
+        while v >= start and len(out) < 64:
+            out.append(v)
+            v += step
+    return out
+
+
+def check_range_arithmetic(P, ctx):
+    """Range's six functions are integer arithmetic over (start, stop, step) and the cursor.  Each is evaluated on its own by the
+    analyser's evaluator (walk of its CFG, C semantics for signed division) over a finite grid of parameters and compared with the
+    closed form above: len = number of elements; iter_init / iter_last = first / last element or Terminal when there is none;
+    iter_next / iter_prev from the k-th element = the neighbour or Terminal at the ends; get(i) = i-th element, negative i from
+    the end.  A bounded evaluation of extracted arithmetic, not a proof for all int64 values."""
+    rule = 'C11.range-arithmetic'
+    grid = [(a, b, c) for a in range(-3, 5) for b in range(-3, 6) for c in (-3, -2, -1, 1, 2, 3)]
+    if ctx.tier == 'thorough':
+        grid += [(a, b, c) for a in (-7, 0, 6) for b in range(-9, 12) for c in (-5, -4, 4, 5, 7)]
+    R = ('param', 0)
+    CUR = ('arrow', ('arrow', R, 'value'), 'val')
+
+    def mk(d, e):
+        d = dict(d)
+        d.update(e)
+        return d
+
+    LEN = ir.canon(('call', ('func', 'Range_Len'), (R,)))
+
+    def base(a, b, c):
+        # a call of Range_Len from a sibling is answered with the closed form: Range_Len is checked against it on its own
+        return {('arrow', R, 'start'): a, ('arrow', R, 'stop'): b, ('arrow', R, 'step'): c, LEN: len(range_spec(a, b, c))}
+
+    def run(fn, g, N, env):
+        why, node, env2 = util.walk_eval(g, N, env, unsigned=False)
+        if why == 'ret':
+            e = ir.top_nocast(N.canon(node['expr'])) if node['expr'] is not None else None
+            if e == ('global', 'Terminal'):
+                return ('terminal', None, env2)
+            try:
+                return ('value', loops.ev(N.canon(node['expr']), env2, unsigned=False), env2)
+            except loops.NoEval:
+                return ('object', e, env2)
+        if why == 'term':
+            return ('throw', node['why'], env2)
+        return ('stuck', '%s at %s' % (why, g.describe(node)), env2)
+    for m in ('len', 'iter_init', 'iter_last', 'iter_next', 'iter_prev', 'get'):
+        C = 'Len' if m == 'len' else ('Get' if m == 'get' else 'Iter')
+        fn = P.fn(P.slot('Range', C, m))
+        g = P.cfg(fn)
+        ctx.fn(fn)
+        N = util.Norm(P, fn, expand_locals=True)
+        bad = None
+        n_eval = 0
+        for (a, b, c) in grid:
+            E = range_spec(a, b, c)
+            n = len(E)
+            cases = []
+            if m == 'len':
+                cases.append((base(a, b, c), ('value', n)))
+            elif m == 'iter_init':
+                cases.append((mk(base(a, b, c), {CUR: 77}), ('cursor', E[0]) if n else ('terminal',)))
+            elif m == 'iter_last':
+                cases.append((mk(base(a, b, c), {CUR: 77}), ('cursor', E[-1]) if n else ('terminal',)))
+            elif m == 'iter_next':
+                for k in range(n):
+                    cases.append((mk(base(a, b, c), {CUR: E[k]}), ('cursor', E[k + 1]) if k + 1 < n else ('terminal',)))
+            elif m == 'iter_prev':
+                for k in range(n):
+                    cases.append((mk(base(a, b, c), {CUR: E[k]}), ('cursor', E[k - 1]) if k > 0 else ('terminal',)))
+            else:
+                KEY = ir.canon(('call', ('func', 'c_int'), (('param', 'key', 1),)))
+                for i in range(-n - 1, n + 2):
+                    want = ('cursor', E[i]) if 0 <= i < n else (('cursor', E[n + i]) if -n <= i < 0 else ('throw',))
+                    cases.append((mk(base(a, b, c), {CUR: 77, KEY: i}), want))
+            for env, want in cases:
+                n_eval += 1
+                kind, val, env2 = run(fn, g, N, env)
+                got = None
+                if kind == 'terminal':
+                    got = ('terminal',)
+                elif kind == 'throw':
+                    got = ('throw',)
+                elif kind == 'value':
+                    got = ('value', val % (1 << 64) if want[0] == 'value' and val < 0 else val)
+                elif kind == 'object':
+                    got = ('cursor', env2.get(CUR))
+                else:
+                    got = (kind, val)
+                if got != want:
+                    extra = ', cursor at %s' % env.get(CUR) if m in ('iter_next', 'iter_prev') else (', index %s' % env.get(KEY) if m == 'get' else '')
+                    bad = 'range(%d, %d, %d)%s: %s gives %s, the elements are %s so it should give %s' % (a, b, c, extra, m, got, E[:8], want)
+                    break
+            if bad:
+                break
+        ctx.stats['paths'] += n_eval
+        ctx.check(bad is None, rule, 'Range.' + m, site(fn),
+                  '%s of a Range agrees with the closed form of its element sequence on %d evaluated parameter points' % (m, n_eval),
+                  [bad] if bad else None)
+    ctx.floor(rule, 6)
+
+
+def check_zip_alignment(P, ctx):
+    """Zip.iter_last must start every input at the last position common to all inputs (len(zip) - 1), not at the input's own end:
+    otherwise backward iteration of inputs of different length pairs up the wrong elements.  Decided by evaluating the function with
+    iterables abstracted to positions: iter_last(x) = len(x)-1, iter_prev(x, p) = p-1, Terminal = -1; for two inputs of lengths
+    (L0, L1) both must be stored at position min(L0, L1) - 1, or the answer is Terminal when that minimum is 0."""
+    rule = 'C11.zip-last-aligned'
+    fn = P.fn(P.slot('Zip', 'Iter', 'iter_last'))
+    g = P.cfg(fn)
+    ctx.fn(fn)
+    N = util.Norm(P, fn, expand_locals=True, inline=False)
+    Z = ('param', 0)
+    ITERS = ('arrow', Z, 'iters')
+    bad = None
+    n_eval = 0
+    for L0 in range(0, 5):
+        for L1 in range(0, 5):
+            Ls = (L0, L1)
+            n = min(Ls)
+
+            def which(a, env):
+                a = ir.top_nocast(a)
+                if a[0] == 'idx' and util.mentions_field(a[1], 'iters'):
+                    return loops.ev(a[2], env, unsigned=False)
+                raise loops.NoEval('not an input of the zip: %s' % ir.fmt(a))
+
+            def call(e, env, Ls=Ls, n=n):
+                nm = ir.callee_name(e)
+                args = [ir.top_nocast(N.canon(a)) for a in e[2]]
+                if nm == 'len':
+                    return 2 if args[0] == ITERS else Ls[which(args[0], env)]
+                if nm == 'Zip_Len':
+                    return n
+                if nm == 'iter_last':
+                    return Ls[which(args[0], env)] - 1
+                if nm == 'iter_prev':
+                    which(args[0], env)
+                    p = loops.ev(args[1], env, unsigned=False)
+                    if p < 0:
+                        raise loops.NoEval('iter_prev applied to Terminal')
+                    return p - 1
+                raise loops.NoEval('call %s' % nm)
+            env = {'__call__': call, ('global', 'Terminal'): -1}
+            why, node, env2 = util.walk_eval(g, N, env, unsigned=False, concrete_idx=True)
+            n_eval += 1
+            stored = {k[2][1]: v for k, v in env2.items() if isinstance(k, tuple) and k[0] == 'idx' and util.mentions_field(k[1], 'values') and k[2][0] == 'int'}
+            if why != 'ret':
+                bad = 'inputs of lengths %s: evaluation stops with %s at %s' % (Ls, why, g.describe(node))
+            else:
+                term = ir.top_nocast(N.canon(node['expr'])) == ('global', 'Terminal')
+                if n == 0 and not term:
+                    bad = 'inputs of lengths %s: the zip is empty but iter_last does not answer Terminal' % (Ls,)
+                elif n > 0 and (term or stored != {0: n - 1, 1: n - 1}):
+                    bad = 'inputs of lengths %s: the inputs are positioned at %s, the last common position is %d for both' % (
+                        Ls, 'Terminal' if term else stored, n - 1)
+            if bad:
+                break
+        if bad:
+            break
+    ctx.stats['paths'] += n_eval
+    ctx.check(bad is None, rule, 'Zip.iter_last', site(fn),
+              'iter_last of a zip positions every input at index len(zip)-1 (evaluated with iterables abstracted to positions, two inputs of lengths 0..4)',
+              [bad] if bad else None)
+    ctx.floor(rule, 1)
+
+
 def run(ctx, load):
     P = load(UNITS, 'default', [WITNESS])
     ctx.stats['units'] = set(UNITS) | {'witness/macros.c'}
@@ -495,6 +670,8 @@ def run(ctx, load):
     check_len_iter_agree(P, ctx)
     check_table_scan(P, ctx)
     check_cursor_scratch(P, ctx)
+    check_range_arithmetic(P, ctx)
+    check_zip_alignment(P, ctx)
     from .rules_c04 import check_list_links
     before = len(ctx.obs)
     check_list_links(P, ctx)
